@@ -32,6 +32,8 @@ def go_test_build(sd, pkg, name):
 def run_trace_spec(sd, tag, module, cfg, tracefile, extra_modules=(), timeout=900):
     wd = os.path.join(sd, 'tr-' + tag)
     os.makedirs(wd, exist_ok=True)
+    if 'Search.tla' in extra_modules:
+        extra_modules = tuple(extra_modules) + ('GeoTable.tla',)
     for f in (module,) + tuple(extra_modules):
         shutil.copy(os.path.join(SPEC, f), wd)
     shutil.copy(os.path.join(SPEC, cfg), wd)
@@ -236,6 +238,108 @@ def probe_check(prop, tier, seed, sd, t0, probe_pkg, mc, trace_module, trace_cfg
     return rc
 
 
+def offline_subcheck(prop, tier, seed, sd, prefixes):
+    """The offline writer: Offline.tla model-checked, then every directory operation of real OfflineWriter
+    builds (with and without an injected failure) validated by OfflineTrace.tla.  Returns (rc, coverage);
+    prints VIOLATION / KNOWN-FINDING lines for clauses with one of the given prefixes."""
+    mcs = []
+    for name, cfg in (('offline', 'MC_offline.cfg'), ('offline_b', 'MC_offline_b.cfg')) + ((('offline_t', 'MC_offline_t.cfg'),) if tier == 'thorough' else ()):
+        mcs.append(vlib.model_check(sd, name, 'Offline.tla', cfg, 900))
+    probe = go_build(sd, './cmd/offlineprobe', 'offlineprobe')
+    tf = os.path.join(sd, 'offline.ndjson')
+    p = subprocess.run(['timeout', '1500', probe, '-out', tf, '-tier', tier, '-seed', str(seed)], stdout=subprocess.PIPE, stderr=subprocess.STDOUT, text=True)
+    if p.returncode != 0:
+        out = p.stdout
+        tail = out[:2000] + '\n...\n' + out[-3000:]
+        if 'github.com/blugelabs/bluge' in out and ('panic' in out or 'fatal error' in out) and 'harness:' not in out:
+            d = save_simple_replay(prop, seed, {'trace.ndjson': tf}, dict(property=prop, note='the offline writer panicked', log=tail))
+            log('VIOLATION property=%s replay=%s' % (prop, d))
+            log('  the real offline writer panicked')
+            return 1, dict(note='offline probe died', log=tail[-600:])
+        raise Inconclusive('offlineprobe failed: %s' % tail)
+    lines = open(tf).read().splitlines()
+    chunks, cur = [], []
+    for l in lines:
+        if '"ev":"Reset"' in l and len(cur) >= 3000:
+            chunks.append(cur)
+            cur = []
+        cur.append(l)
+    if cur:
+        chunks.append(cur)
+    import concurrent.futures as cf
+
+    def one(i):
+        cf_ = os.path.join(sd, 'offchunk-%d.ndjson' % i)
+        open(cf_, 'w').write('\n'.join(chunks[i]) + '\n')
+        return run_trace_spec(sd, 'offline-%d' % i, 'OfflineTrace.tla', 'OfflineTrace.cfg', cf_, extra_modules=('Offline.tla',), timeout=1800)
+    with cf.ThreadPoolExecutor(max_workers=12) as ex:
+        results = list(ex.map(one, range(len(chunks))))
+    viols, offset, states, trans = [], 0, 0, 0
+    for i, res in enumerate(results):
+        if not res['ok']:
+            raise Inconclusive('OfflineTrace did not consume chunk %d:\n%s' % (i, res['tail']))
+        states += res['states']
+        trans += res['transitions']
+        viols += [(c, offset + line, k) for c, line, k in res['viols']]
+        offset += len(chunks[i])
+    divs = [v for v in viols if v[0].startswith('DIV_')]
+    strict = [v for v in viols if v[0].startswith('STRICT_')]
+    notes = [v for v in viols if v[0].startswith('NOTE_')]
+    mine = [v for v in viols if any(v[0].startswith(x) for x in prefixes)]
+    rc = 0
+    real = []
+    seen = set()
+    for v in mine:
+        k = None
+        for kf in vlib.known_findings():
+            if kf.get('status') == 'known' and kf['property'] == prop and kf['clause'] == v[0]:
+                k = kf
+        if k:
+            if k['key'] not in seen:
+                seen.add(k['key'])
+                log('KNOWN-FINDING: property=%s %s' % (prop, k['what']))
+        else:
+            real.append(v)
+    if real:
+        c, line, run = real[0]
+        j = line - 1
+        while j > 0 and '"ev":"Reset"' not in lines[j]:
+            j -= 1
+        e = line
+        while e < len(lines) and '"ev":"Reset"' not in lines[e]:
+            e += 1
+        d = os.path.join(VERIF, 'replays', prop, '%d-%s-offline' % (int(time.time()), seed))
+        os.makedirs(d, exist_ok=True)
+        open(os.path.join(d, 'trace.ndjson'), 'w').write('\n'.join(lines[j:e]) + '\n')
+        json.dump(dict(property=prop, clause=c, line=line - j, kind='probe', module='OfflineTrace.tla', cfg='OfflineTrace.cfg', extra=['Offline.tla']), open(os.path.join(d, 'meta.json'), 'w'), indent=1)
+        log('VIOLATION property=%s replay=%s' % (prop, d))
+        log('  offline writer: %s in run %d (line %d): %s' % (c, run, line, lines[j][:300]))
+        rc = 1
+    elif divs:
+        raise Inconclusive('Offline.tla and the probe disagree about the binding: %s' % divs[:3])
+    runs = sum(1 for l in lines if '"ev":"Reset"' in l)
+    cov = dict(model_configs=mcs, builds_validated=runs, builds_with_injected_failure=sum(1 for l in lines if '"ev":"Reset"' in l and '"fault":-1' not in l),
+               directory_operations=sum(1 for l in lines if '"ev":"PersistEnd"' in l or '"ev":"LoadEnd"' in l or '"ev":"RemoveEnd"' in l),
+               events=len(lines), trace_states=states, model_divergences=len(strict), notes=len(notes), violations=len(real),
+               rule='OfflineWriter builds of n documents with batch size b over the logging directory wrapper, n in {0..31 (..200)}, b in {0,1,2,9,100,..}, both segment formats, plus builds with one '
+                    'injected failure (before / partial / after) at a sampled directory operation; OfflineTrace.tla replays every Persist (content parsed back from the persisted bytes), Load, handle '
+                    'close and Remove through Offline.tla: nothing lost at any step, merge rounds preserve content, the snapshot names existing files holding everything, an offline index is complete or '
+                    'absent, handles released; STRICT clauses compare ids, document order, merge width and load order with the model step')
+    log('offline writer: %d builds (%d with an injected failure), %d directory operations validated by TLC, %d violations, %d model divergences'
+        % (runs, cov['builds_with_injected_failure'], cov['directory_operations'], len(real), len(strict)))
+    return rc, cov
+
+
+def merge_sub_evidence(prop, key, cov, rc):
+    """Adds the coverage of a sub-check to the evidence file written by the main check."""
+    f = os.path.join(VERIF, 'evidence', prop + '.json')
+    ev = json.load(open(f))
+    ev['coverage'][key] = cov
+    if rc:
+        ev['violations'] = ev.get('violations', 0) + cov.get('violations', 1)
+    json.dump(ev, open(f, 'w'), indent=1, default=str)
+
+
 def check_c07(prop, tier, seed, sd, t0):
     return probe_check(prop, tier, seed, sd, t0, './cmd/searchprobe', [('searchmc', 'SearchMC.tla', 'SearchMC.cfg', 600)],
                        'SearchTrace.tla', 'SearchTrace.cfg', ('Search.tla',), 'C07_',
@@ -243,11 +347,12 @@ def check_c07(prop, tier, seed, sd, t0):
                        'in 2 segments (split point and one pending deletion varied) x boolean shapes of depth <= 2 over term/match-all/match-none leaves with min-should 0..3; (b) corpora of '
                        '3..12 documents in 1..4 segments with pending deletions, two text fields (positions), numeric, date and keyword fields, query trees to depth 3 and width 12 over '
                        'term, match and/or, (multi-)phrase with slop, prefix, wildcard, regexp, fuzzy (distance 0..2, prefix 0..2), term range, numeric range, date range, geo bounding box (points on whole '
-                       'degrees, edges on half degrees, boxes crossing the date line), all, none, bool; '
+                       'degrees, edges on half degrees, boxes crossing the date line), geo distance (7 centres incl. the date line and both polar regions, radii 87..21000 km that keep 2.4% clear of '
+                       'every distance in the generated great-circle table spec/GeoTable.tla), all, none, bool; '
                        'TLC evaluates Search!Eval for every logged (corpus, query) and compares with the ids really returned; distinct = distinct logged (query, result) lines',
                        ['the corpus logged is the corpus indexed (sq.Build)', 'text is analysed by the standard analyzer into the logged tokens (lower-case letters only)',
-                        'geo distance / polygon queries and float/boundary behaviour of numeric and geo encodings are not covered (C10 is not applicable)'],
-                       extra_cov=lambda lines: dict(excluded_query_kinds=['geo distance', 'geo polygon']))
+                        'geo distance is decided only for radii at least 2.4% away from every centre-point distance (mean-sphere table); geo polygon queries (not in the property list) and float/boundary behaviour of numeric and geo encodings are not covered (C10 is not applicable)'],
+                       extra_cov=lambda lines: dict(excluded_query_kinds=['geo polygon'], geo_distance_queries=sum(1 for l in lines if '"t":"geodist"' in l)))
 
 
 def check_c09(prop, tier, seed, sd, t0):
@@ -276,6 +381,13 @@ def check_c16(prop, tier, seed, sd, t0):
 
 
 def check_c08(prop, tier, seed, sd, t0):
+    rc = _check_c08_layout(prop, tier, seed, sd, t0)
+    rc2, cov = offline_subcheck(prop, tier, seed, sd, ('C08_',))
+    merge_sub_evidence(prop, 'offline_writer', cov, rc2)
+    return 1 if (rc or rc2) else 0
+
+
+def _check_c08_layout(prop, tier, seed, sd, t0):
     return probe_check(prop, tier, seed, sd, t0, './cmd/layoutprobe', [], 'LayoutTrace.tla', 'LayoutTrace.cfg', ('Layout.tla', 'Search.tla'), 'C08_',
                        'generated logical corpora (0, 1, 3, 7, 12, 15, 25 or 40 documents; the empty corpus always included) each built by 16 recipes: all at once, one document per batch, random '
                        'partition in memory, ice v2, optimisations disabled, close + OpenReader, Backup + OpenReader, scoring off, OfflineWriter with batch sizes 1 / 3 / 100 (more than 10 batches => '
